@@ -197,7 +197,7 @@ func c13Specs() []*edt.Spec {
 		strobeOpSpec("(*Strobe).KEY", strobeOpaque, "operate(6, $data, false)"), // on a copy: see Extra below
 		{
 			Pkg: "internal/strobe", Func: "(*Strobe).PRF", Opaque: strobeOpaque, SymLoops: true, MinPaths: 2,
-			Vars: map[string]string{"((φL0.0 + 1) < len($dest))": "more"},
+			Vars: map[string]string{"(φL0.0 < len($dest))": "more"},
 			Classify: func(p *edt.Path, out string, e *edt.Env) string {
 				if strings.HasPrefix(out, "next-iteration@L0(") {
 					return "zeroing"
@@ -213,7 +213,7 @@ func c13Specs() []*edt.Spec {
 			},
 			Extra: func(p *edt.Path, out, class string, e *edt.Env, ab func(string) string) string {
 				if class == "zeroing" {
-					return finalIs(p, ab, "$dest[(φL0.0 + 1)]", "0")
+					return finalIs(p, ab, "$dest[φL0.0]", "0")
 				}
 				got := strobeOps(p, "Strobe.")
 				if len(got) != 1 || got[0] != "operate(7, havoc@L0($dest), false)" {
